@@ -29,6 +29,7 @@ type JobCfg struct {
 	Solver          string            `json:"solver"`
 	Params          map[string]int    `json:"params"`
 	SplitGroups     int               `json:"split_groups"`
+	PreemptionBound int               `json:"preemption_bound"`
 	SymAlloc        bool              `json:"sym_alloc"` // mallocgc with a symbolic size keeps it symbolic
 }
 
